@@ -846,5 +846,5 @@ pub fn run_check(tier: &str) -> i32 {
         stub: "CNB lifecycle (directory layout, inputs, phase invocation); the buildpack's detect/build only dump their context",
         needs_shim_in_worker: false,
     };
-    common::run_check(&spec, tier, &|_, _| {})
+    common::run_check(&spec, tier, &|_, _| 0)
 }
